@@ -5,12 +5,17 @@ Texts == { <<[lead |-> 0, w |-> "a"]>>,
            <<[lead |-> 0, w |-> ""]>> }
 Titles == { [id |-> "T", len |-> 1], [id |-> "Title", len |-> 5], [id |-> "Ünï", len |-> 3],
             \* wide characters (%W) and a combining accent (~), substituted by the harness: the frame has the length of the title in characters
-            [id |-> "%W%Wa", len |-> 3], [id |-> "Cafe~", len |-> 5] }
+            [id |-> "%W%Wa", len |-> 3], [id |-> "Cafe~", len |-> 5],
+            [id |-> "", len |-> 0] }     \* the empty title: framed by two empty lines
 Items == { <<"i">>, <<"i", "j">> }
 AllOps == {"text", "field", "blist", "elist", "directive", "option", "set_title", "clear", "to_text"}
 NoTitleOps == AllOps \ {"set_title", "elist"}
 \* growth beyond C20: section() and doctest() (conformance only)
 \* five directives deep (indent levels beyond what the pipeline itself produces)
 DeepOps == {"directive", "text", "field", "option", "to_text"}
+\* a chain of directives with one element at the bottom: exhaustive to six levels (the fixed title keeps it small)
+ChainOps == {"directive", "field", "to_text"}
+OneTitle == { [id |-> "T", len |-> 1] }
+OneText == { <<[lead |-> 0, w |-> "a"]>> }
 GrowthOps == {"text", "directive", "doctest", "section", "field", "to_text"}
 =============================================================================
